@@ -27,6 +27,7 @@ type specEnv struct {
 	localFn *ssa.Function
 	at      *ssa.BasicBlock
 	inOld   bool
+	cur     *State // the current state while evaluating inside old()
 	nbind   int
 	clause  *Clause
 	macroDepth int
@@ -597,6 +598,17 @@ func (fc *FnCtx) evalCall(env *specEnv, x *ast.CallExpr) Val {
 		n := *env
 		n.st = env.old
 		n.inOld = true
+		n.cur = env.st
+		return fc.evalSpec(&n, x.Args[0])
+	case "now":
+		// inside old(...): evaluate the argument in the current state again
+		if env.cur == nil {
+			return fc.evalSpec(env, x.Args[0])
+		}
+		n := *env
+		n.st = env.cur
+		n.inOld = false
+		n.cur = nil
 		return fc.evalSpec(&n, x.Args[0])
 	case "imp":
 		return boolV(implies(arg(0).T, arg(1).T))
